@@ -34,6 +34,7 @@ type scenario struct {
 	B2      string       // behaviour on connection 1 (resend phase)
 	Clean2  bool         // connection 1 uses a clean session
 	OwnPub  bool         // the subscriber also publishes QoS 2 messages under the packet ids 1..window+2
+	Bystand bool         // another client holds a QoS 0 subscription to the same topics (clean session)
 	Fault   *connFault
 }
 
@@ -45,6 +46,9 @@ func (s scenario) String() string {
 	own := ""
 	if s.OwnPub {
 		own = " own-publishes"
+	}
+	if s.Bystand {
+		own += " qos0-bystander"
 	}
 	return fmt.Sprintf("window=%d online=%v offline=%v b1=%q b2=%q clean2=%t%s | %s", s.Window, s.QoS, s.Offline, s.B1, s.B2, s.Clean2, own, f)
 }
@@ -161,6 +165,20 @@ func run(r *h.Run, sc scenario) result {
 			res.inconclusive = "CONNACK watchdog"
 		}
 		return p, ca
+	}
+	if sc.Bystand {
+		// an unrelated client with a lower-QoS subscription to the same topics: what
+		// it is granted must not influence what the persistent subscriber gets
+		by, _, bca, berr := b.Connect("bystander", bh.ConnectOpts{ID: "bystander", Clean: true, AutoAck: true}, nil)
+		if berr != nil || bca == nil {
+			res.inconclusive = "bystander could not connect"
+			return res
+		}
+		_ = by.Send(&packet.Subscribe{ID: 1, Subscriptions: []packet.Subscription{{Topic: "t/#", QOS: 0}}})
+		if _, err := bh.AwaitAck(by, packet.SUBACK, 1); err != nil {
+			res.inconclusive = "bystander SUBACK"
+			return res
+		}
 	}
 	// publisher
 	pub, _, pca, err := b.Connect("pub", bh.ConnectOpts{ID: "publisher", Clean: true, AutoAck: true}, nil)
@@ -676,7 +694,7 @@ func (m *smodel) checkDup() {
 
 func TestCheck(t *testing.T) {
 	r := h.New("C08", "fault_enumeration")
-	r.Rule("scenarios: inflight window 1-3, 1..window+2 online messages of mixed QoS 1/2, 0-2 offline messages, subscriber behaviour vectors over {ack, withhold, drop connection} per received PUBLISH/PUBREL on the first and on the resumed connection, second connection unclean or clean, a quarter of the scenarios with the subscriber itself publishing QoS 2 messages under the packet ids in flight towards it; every base scenario is first run without faults to count the packets on each subscriber connection and then re-run with every single fault position (connection c, k-th broker-side Send/Receive, before/after) — all positions for a deterministic third of the base scenarios in quick, for all in thorough. Non-trivial = runs with >= 1 unacknowledged QoS>0 packet at the moment of a connection loss; distinct by (scenario, fault)")
+	r.Rule("scenarios: inflight window 1-3, 1..window+2 online messages of mixed QoS 1/2, 0-2 offline messages, subscriber behaviour vectors over {ack, withhold, drop connection} per received PUBLISH/PUBREL on the first and on the resumed connection, second connection unclean or clean, a fifth with a QoS 0 bystander subscribed to the same topics, a quarter of the scenarios with the subscriber itself publishing QoS 2 messages under the packet ids in flight towards it; every base scenario is first run without faults to count the packets on each subscriber connection and then re-run with every single fault position (connection c, k-th broker-side Send/Receive, before/after) — all positions for a deterministic third of the base scenarios in quick, for all in thorough. Non-trivial = runs with >= 1 unacknowledged QoS>0 packet at the moment of a connection loss; distinct by (scenario, fault)")
 	r.Assume("the subscriber-side model of sent-and-unacknowledged packets is driven by broker-side sends and by the broker's own Log(PacketReceived) report")
 	r.Assume("workloads stay inside SessionQueueSize (overflow behaviour is documented as out of contract)")
 	rng := r.Rand("c08")
@@ -687,7 +705,7 @@ func TestCheck(t *testing.T) {
 	for i := 0; i < nbase; i++ {
 		w := 1 + i%3
 		n := 1 + rng.Intn(w+2)
-		sc := scenario{Window: w, B1: b1s[rng.Intn(len(b1s))], B2: b2s[rng.Intn(len(b2s))], Clean2: i%9 == 8, OwnPub: i%4 == 1}
+		sc := scenario{Window: w, B1: b1s[rng.Intn(len(b1s))], B2: b2s[rng.Intn(len(b2s))], Clean2: i%9 == 8, OwnPub: i%4 == 1, Bystand: i%5 == 2}
 		for k := 0; k < n; k++ {
 			sc.QoS = append(sc.QoS, packet.QOS(1+rng.Intn(2)))
 		}
